@@ -2796,10 +2796,11 @@ func (mgr *Manager) tagUpdateEventWorker() {
 			ticker.Stop()
 			return
 		case <-ticker.C:
-			if len(mgr.updatedTagsToSignal) == 0 {
-				continue
-			}
 			mgr.jobs <- func() {
+				// updatedTagsToSignal belongs to the service loop, only look at it here
+				if len(mgr.updatedTagsToSignal) == 0 {
+					return
+				}
 				infos := make([]*TagInfo, 0, len(mgr.updatedTagsToSignal))
 				for tn := range mgr.updatedTagsToSignal {
 					delete(mgr.updatedTagsToSignal, tn)
